@@ -16,7 +16,7 @@ import (
 
 var c14Kinds = []string{"json.Number", "int", "int8", "int16", "int32", "int64", "uint", "uint8", "uint16", "uint32", "uint64", "float32", "float64", "decimal128"}
 
-var c14Values = []string{"-7", "-2", "-1", "0", "1", "2", "3", "8", "0.5", "1.5", "-3.5", "255", "2147483648",
+var c14Values = []string{"-7", "-2", "-1", "0", "1", "2", "3", "8", "0.5", "1.5", "-3.5", "255", "2147483648", "2.0", "3e0", "20e-1", "-0.0",
 	// beyond the 53-bit mantissa and beyond int64: only for forms that compare or order (no arithmetic)
 	"9007199254740992", "9007199254740993", "9223372036854775807", "9223372036854775808", "18446744073709551615", "-9223372036854775808"}
 
@@ -193,6 +193,10 @@ func c14Doc(kx, ky, vx, vy string) (any, bool) {
 func c14Check(r *core.Run, f c14Form, kx, ky, vx, vy string) *core.Violation {
 	rx, _ := core.ParseDecimal(vx)
 	ry, _ := core.ParseDecimal(vy)
+	if strings.HasPrefix(f.Name, "to_string") && strings.ContainsAny(vx, ".eE") {
+		r.AbstainOn("to_string of an integer spelled with a fraction or an exponent: the spelling is the carrier's")
+		return nil
+	}
 	if !f.Guard(rx, ry) {
 		r.AbstainOn("an intermediate value is not exactly representable in every carrier")
 		return nil
